@@ -235,6 +235,7 @@ def all_families(nws=(1, 2, 3)):
                 sleep_then_spawn(nw), two_awaits_same_worker(nw)]
         out += select_cases(nw)
         out += failure_cases(nw)
+        out += [request_reply(nw, 1), request_reply(nw, 2), message_during_spawn(nw), send_to_finished(nw), filter_fails(nw)]
         out += heap_cases(nw)
         out += ref_cases(nw)
         out += resource_cases(nw)
@@ -364,4 +365,81 @@ def resource_cases(nw=2):
                   [ropen(1), ret(OKE)],
                   [select(1, tmo(2)), ret(c(I(7)))]], nw=nw, io=True, maxtick=2)
     out.append(meta(s, True, True, ["C14"]))
+    return out
+
+
+# ---------------------------------------------------------------- more C03/C04 families
+def request_reply(nw=2, clients=2):
+    # a server answers `clients` requests [reply-to pid, x] with x+... (here: echoes a fixed tuple); each client
+    # sends its own pid, waits for the reply, returns it
+    server = []
+    for i in range(clients):
+        server += [select(1, recv(("req",))), let(2, fld(1, 0)), send(2, fld(1, 1))]
+    server.append(ret(OKE))
+    scripts = [None, server]
+    main = [spawn(1, 2)]
+    for i in range(clients):
+        scripts.append([selfpid(2), send(1, t(r(2), c(I(40 + i)))), select(3, recv()), ret(r(3))])
+        main.append(spawn(2 + i, 3 + i, r(1)))
+    for i in range(clients):
+        main.append(select(5 + i, aw(2 + i)))
+    main.append(ret(t(*[r(5 + i) for i in range(clients)])))
+    scripts[0] = main
+    return meta(scenario("request_reply_%d_w%d" % (clients, nw), scripts, nw=nw), True, True, ["C03", "C04"],
+                large=clients > 1)
+
+
+def message_during_spawn(nw=2):
+    # messages arrive while the receiver is parked in `spawning` (CHANGELOG: message lost during spawn)
+    scripts = [[spawn(1, 2), spawn(2, 4, r(1)), select(3, aw(1)), ret(r(3))],
+               [spawn(1, 3), select(2, recv()), spawn(3, 3), select(4, recv()), select(5, aw(1)), ret(t(r(2), r(4), r(5)))],
+               [ret(c(I(9)))],
+               [send(1, c(I(1))), send(1, c(I(2))), ret(OKE)]]
+    return meta(scenario("message_during_spawn_w%d" % nw, scripts, nw=nw, maxpid=5), True, True, ["C03", "C04"], large=True)
+
+
+def send_to_finished(nw=2):
+    # a message sent to a process that has already finished still arrives exactly once (in a dead mailbox)
+    scripts = [[spawn(1, 2), select(2, aw(1)), send(1, c(I(5))), send(1, c(I(6))), spawn(3, 3), select(4, aw(3)), ret(r(2))],
+               [select(1, recv(), tmo(0)), ret(c(I(1)))],
+               [ret(c(I(2)))]]
+    return meta(scenario("send_to_finished_w%d" % nw, scripts, nw=nw), True, True, ["C04", "C03"])
+
+
+def filter_fails(nw=2):
+    # a filter whose body hits a domain error: the selecting process fails (its own failure), awaiters see it
+    scripts = [[spawn(1, 2), send(1, c(I(1))), select(2, aw(1)), ret(r(2))],
+               [select(1, recv(body="fail")), ret(r(1))]]
+    return meta(scenario("filter_fails_w%d" % nw, scripts, nw=nw), True, True, ["C15", "C05"])
+
+
+# ---------------------------------------------------------------- C05: seeded cross product of select shapes
+SEL_POOL = [lambda: aw(1), lambda: aw(2), lambda: aw(3), lambda: recv(), lambda: recv(acc=[I(2)]),
+            lambda: recv(("tup",)), lambda: recv(("tup",), body="builtin"), lambda: tmo(0), lambda: tmo(2)]
+SEL_PRELOADS = [[], [I(1)], [I(2)], [I(1), I(2)], [T(I(3), I(4)), I(2)], [I(1), T(I(3), I(4)), I(2)]]
+
+
+def select_product(seed, n, nw=2):
+    import random
+    rnd = random.Random(seed)
+    out, seen = [], set()
+    while len(out) < n:
+        k = rnd.choice([1, 2, 2, 3, 3])
+        idx = tuple(rnd.randrange(len(SEL_POOL)) for _ in range(k))
+        pre = rnd.randrange(len(SEL_PRELOADS))
+        after = rnd.choice([(), (I(2),), (T(I(5), I(6)),)])
+        key = (idx, pre, len(after))
+        if key in seen:
+            continue
+        seen.add(key)
+        srcs = [SEL_POOL[i]() for i in idx]
+        for s_ in srcs:   # a builtin receive source is type-only
+            if s_.get("body") == "builtin":
+                s_["filt"] = False
+        mt = max([s_["d"] for s_ in srcs if s_["k"] == "timeout"] + [0])
+        name = "selx_%s_p%d_a%d_w%d" % ("".join(str(i) for i in idx), pre, len(after), nw)
+        sc = select_case(srcs, SEL_PRELOADS[pre], extra_after=list(after), nw=nw, name=name, maxtick=mt)
+        sc["large"] = False
+        sc["sampled"] = True
+        out.append(sc)
     return out
